@@ -155,7 +155,7 @@ NOT_YET = {
 # sentences appended to the level text: what rounds seven and eight of the seeded changes added (DESIGN.md 12.5, 12.6)
 EXTRA = {
  "C01": " Encodings include used duplicate constants, non-zero switch padding (version >= 51), descriptors at the 255-slot limit, line number tables beyond 65535 entries; a read that fails (the same file cut short) precedes every read.",
- "C02": " A write that fails half way (a buffer that is too small) precedes every write; tables beyond 65535 entries may be split or refused. One seeded change (pool index 65534 handed to a long/double) is not reached by any generator (DESIGN 12.6).",
+ "C02": " A write that fails half way (a buffer that is too small) precedes every write; tables beyond 65535 entries may be split or refused. Sub-check pool_size_limit enumerates input pools of 65529-65535 slots, written as read and after a renaming that adds one constant (valid up to 65535 slots, refusal beyond).",
  "C03": " Sub-check large_sets repeats the laws on sets of 200-1500 classes (64 KiB - 1 MiB of text) with single lines of up to 260 KiB; namespace names that are equal up to case / prefixes of each other.",
  "C04": " Targets much larger than the diff (80+ untouched entries per level), comments differing only in the kind of white space, comments with backslashes.",
  "C06": " Method descriptors with hundreds of array dimensions in total; on one remapper an unknown member whose owner+name text equals a mapped member's (other split) is asked first.",
